@@ -336,12 +336,14 @@ pub fn decompress(
             let declared_len = snap::raw::decompress_len(comp_body)
                 .map_err(|err| FrameBodyExtensionsParseError::SnapDecompressError(Arc::new(err)))?;
             if declared_len > comp_body.len().saturating_mul(64).saturating_add(64) {
-                return Err(FrameBodyExtensionsParseError::SnapDecompressError(Arc::new(
-                    LowLevelDeserializationError::IoError(Arc::new(std::io::Error::new(
-                        std::io::ErrorKind::InvalidData,
-                        "snappy frame declares a decompressed size impossible for its compressed size",
+                return Err(FrameBodyExtensionsParseError::SnapDecompressError(
+                    Arc::new(LowLevelDeserializationError::IoError(Arc::new(
+                        std::io::Error::new(
+                            std::io::ErrorKind::InvalidData,
+                            "snappy frame declares a decompressed size impossible for its compressed size",
+                        ),
                     ))),
-                )));
+                ));
             }
             snap::raw::Decoder::new()
                 .decompress_vec(comp_body)
